@@ -377,7 +377,7 @@ func runC10(c *kit.Ctx) {
 			if !ok || bo.Op != token.ADD {
 				return
 			}
-			if ph, ok := bo.X.(*ssa.Phi); ok && ph.Comment == "count" {
+			if ph, ok := bo.X.(*ssa.Phi); ok && isReturnedCount(vtc, ph) {
 				if l := kit.LenOf(bo.Y); l != nil {
 					// l must be what the inner sizing range iterates
 					kit.Instrs(vtc, func(x ssa.Instruction) {
@@ -420,21 +420,10 @@ func runC10(c *kit.Ctx) {
 			mk = m
 		}
 	})
-	var cbsParam, rowP, famP, qualP, valP *ssa.Parameter
-	for _, pa := range app.Params {
-		switch pa.Name() {
-		case "cbs":
-			cbsParam = pa
-		case "row":
-			rowP = pa
-		case "family":
-			famP = pa
-		case "qualifier":
-			qualP = pa
-		case "value":
-			valP = pa
-		}
-	}
+	// appendCellblock(row []byte, family, qualifier string, value []byte, ts uint64, typ byte, cbs []byte):
+	// parameters by type and position
+	rowP, valP, cbsParam := paramOfType(app, "[]byte", 0), paramOfType(app, "[]byte", 1), paramOfType(app, "[]byte", 2)
+	famP, qualP := paramOfType(app, "string", 0), paramOfType(app, "string", 1)
 	if lastCopy == nil || mk == nil || cbsParam == nil || rowP == nil || famP == nil || qualP == nil || valP == nil {
 		c.Unk(app, "writer-shape", app.Pos(), "appendCellblock no longer has the shape make+cursor+copy with parameters row/family/qualifier/value/cbs")
 	} else {
@@ -653,4 +642,34 @@ func getWidth(name string) (int, bool) {
 		return 8, true
 	}
 	return 0, false
+}
+
+// isReturnedCount: phi ph is (a conversion of) what valuesToCellblocks returns
+// as its second result (the cell count).
+func isReturnedCount(fn *ssa.Function, ph *ssa.Phi) bool {
+	found := false
+	kit.Instrs(fn, func(in ssa.Instruction) {
+		r, ok := in.(*ssa.Return)
+		if !ok || len(r.Results) != 3 {
+			return
+		}
+		v := r.Results[1]
+		if cv, ok := v.(*ssa.Convert); ok {
+			v = cv.X
+		}
+		if q, ok := v.(*ssa.Phi); ok {
+			if q == ph {
+				found = true
+			}
+			for _, l := range q.Edges {
+				if l == ssa.Value(ph) {
+					found = true
+				}
+				if bo, ok := l.(*ssa.BinOp); ok && bo.X == ssa.Value(ph) {
+					found = true
+				}
+			}
+		}
+	})
+	return found
 }
